@@ -1,8 +1,16 @@
 (* C08, sequential part: the theorems about the lossy channel transported to the byte-level model
    through the refinement (Proofs/BroadcastRefine.v), and the oracle on the model's own results. *)
 From Coq Require Import String.
-Require Import V.Base.MachineInt V.Generated.GenConsts V.Model.Broadcast V.Model.BroadcastShow V.Spec.Lossy
-               V.Oracle.C08Oracle V.Proofs.BroadcastMem V.Proofs.BroadcastInv V.Proofs.BroadcastRefine V.Proofs.LossyProofs.
+Require Import V.Base.MachineInt.
+Require Import V.Generated.GenConsts.
+Require Import V.Model.Broadcast.
+Require Import V.Model.BroadcastShow.
+Require Import V.Spec.Lossy.
+Require Import V.Oracle.C08Oracle.
+Require Import V.Proofs.BroadcastMem.
+Require Import V.Proofs.BroadcastInv.
+Require Import V.Proofs.BroadcastRefine.
+Require Import V.Proofs.LossyProofs.
 From Coq Require Import ZifyBool.
 Open Scope Z_scope.
 
